@@ -171,7 +171,199 @@ def check_order(case):
     return (("ids", scheme), 1), fails
 
 
-DISPATCH = {"int": check_int_table, "float": check_float_table, "ids": check_order}
+# ---- handler level: the table the real event handlers feed into the lifting ------------------------------------------
+def _measure(accept_and_pick, n=128):
+    """Measure of the deciding draw u in [0, 1) leading to each new active identifier (step function, bisection)."""
+    us = [i / n for i in range(n)] + [ONE_BELOW]
+    ks = [accept_and_pick(u) for u in us]
+    measure = {}
+    left = 0.0
+    for i in range(len(us) - 1):
+        if ks[i] != ks[i + 1]:
+            stack = [(us[i], ks[i], us[i + 1], ks[i + 1])]
+            cuts = []
+            while stack:
+                l, kl, h, kh = stack.pop()
+                if kl == kh:
+                    continue
+                if h - l < 1e-13:
+                    cuts.append((0.5 * (l + h), kl))
+                    continue
+                m = 0.5 * (l + h)
+                km = accept_and_pick(m)
+                stack.append((m, km, h, kh))
+                stack.append((l, kl, m, km))
+            for c, kl in sorted(cuts):
+                measure[kl] = measure.get(kl, 0.0) + (c - left)
+                left = c
+    measure[ks[-1]] = measure.get(ks[-1], 0.0) + (1.0 - left)
+    return measure
+
+
+def check_pair_handler(case):
+    """case = ("pairhandler", scheme, n leaves, geometry id): TwoCompositeObjectSummedBoundingPotentialEventHandler on two
+    molecules: with every unit of positive factor derivative as the active one, the flow into each unit of negative
+    derivative must equal its magnitude.  The table is computed independently from the pair derivatives."""
+    import jellyfysh.setting as setting
+    from .. import handlers as hx
+    from ..env import init_setting
+    from jellyfysh.potential.inverse_power_potential import InversePowerPotential
+    from jellyfysh.event_handler.two_composite_object_summed_bounding_potential_event_handler import \
+        TwoCompositeObjectSummedBoundingPotentialEventHandler
+    _, scheme, nl, geo = case
+    L = 1.0
+    init_setting((L, L, L), cubic=True, roots=2, per_root=nl)
+    pot = InversePowerPotential(power=1.0, prefactor=1.0)
+    bnd = InversePowerPotential(power=1.0, prefactor=40.0)
+    handler = TwoCompositeObjectSummedBoundingPotentialEventHandler(potential=pot, bounding_potential=bnd,
+                                                                    lifting=_cls(scheme)(), charge="q")
+    shapes = {0: [(0.0, 0.0, 0.0), (0.04, 0.02, -0.03), (-0.03, 0.05, 0.02), (0.02, -0.04, 0.04)],
+              1: [(0.0, 0.0, 0.0), (0.05, -0.01, 0.02), (-0.02, -0.03, 0.05), (0.03, 0.03, 0.03)],
+              2: [(0.0, 0.0, 0.0), (-0.05, 0.03, 0.01), (0.02, 0.04, -0.04), (0.01, 0.05, 0.02)]}[geo][:nl]
+    charges = [[1.0, -1.0], [0.41, -0.82, 0.41], [1.0, -0.5, 0.7, -1.2]][nl - 2]
+    offs = [(0.22, 0.05, -0.08), (-0.18, 0.12, 0.1), (0.12, -0.2, 0.15)][geo]
+    ca = (0.4, 0.4, 0.4)
+    pa = [[ca[d] + sh[d] for d in range(3)] for sh in shapes]
+    pb = [[ca[d] + offs[d] + sh[(d + 1) % 3] for d in range(3)] for sh in shapes]
+    direction = geo % 3
+    vel = [0.0, 0.0, 0.0]
+    vel[direction] = 1.0
+    units = [((0, i), pa[i], charges[i]) for i in range(nl)] + [((1, i), pb[i], charges[i]) for i in range(nl)]
+
+    def pair(i, j):
+        """rate of energy change of the pair (i, j) when i moves along vel: -dU/ds_d with s = r_j - r_i"""
+        s = [units[j][1][d] - units[i][1][d] for d in range(3)]
+        r = math.sqrt(sum(x * x for x in s))
+        return units[i][2] * units[j][2] * s[direction] / r ** 3
+    table = {}
+    for i, (ident, _, _) in enumerate(units):
+        others = [j for j in range(len(units)) if units[j][0][0] != ident[0]]
+        table[ident] = sum(pair(i, j) for j in others)
+    fails = []
+    flow = {k: 0.0 for k in table}
+    total = sum(v for v in table.values() if v > 0)
+    ratio = scheme.endswith("RatioLifting")
+    nexec = 0
+    for a, (ident, _, _) in enumerate(units):
+        qa = table[ident]
+        if qa <= 1e-9 * total:
+            continue
+        ra = ident[0]
+        branches = []
+        for r_id, pos in ((0, pa), (1, pb)):
+            ch = [{"q": c} for c in charges]
+            branches.append(hx.molecule_branch(r_id, pos, ch, ident[1] if r_id == ra else None, vel, (0.0, 0.0), L))
+        # the mediator hands the branch of the active unit first
+        in_state = branches if ra == 0 else [branches[1], branches[0]]
+
+        def pick(u):
+            us = [0.0, 0.5, u] if ratio else [0.0, u]
+            _, out, _ = hx.run_event(handler, in_state, 1e-13, us)
+            mv = hx.moving_leaves(out)
+            return mv[0] if len(mv) == 1 else tuple(mv)
+        try:
+            meas = _measure(pick)
+        except Exception as e:
+            fails.append(("exception", "%s %d-atom molecules geometry %d active %r raised %r" % (scheme, nl, geo, ident, e)))
+            continue
+        nexec += 129
+        for k, p in meas.items():
+            if k == ident:
+                fails.append(("not-confirmed", "%s active %r: the event was not confirmed for a set of lifting draws of "
+                              "measure %.3g although the confirmation draw is 0" % (scheme, ident, p)))
+            elif k not in table or table[k] >= 0 and p > 1e-9:
+                fails.append(("selects-nonnegative", "%s %d-atom molecules geometry %d active %r: unit %r with factor "
+                              "derivative %r is selected on a set of draws of measure %.3g"
+                              % (scheme, nl, geo, ident, k, table.get(k), p)))
+            else:
+                flow[k] += qa * p
+    for k, v in table.items():
+        want = -v if v < 0 else 0.0
+        if abs(flow[k] - want) > 1e-6 * total:
+            fails.append(("handler-flow-balance", "%s with two %d-atom molecules (geometry %d, direction %d): factor "
+                          "derivatives %r; flow into unit %r is %.9g, its negative derivative is %.9g"
+                          % (scheme, nl, geo, direction, {str(a): round(b, 6) for a, b in table.items()}, k, flow[k],
+                             want)))
+            break
+    setting.reset()
+    return (("pairhandler", scheme, nl, sum(1 for v in table.values() if v > 0)), nexec), fails
+
+
+def check_bending_handler(case):
+    """case = ("bendhandler", scheme, geometry id): FixedSeparationsEventHandlerWithPiecewiseConstantBoundingPotential
+    with the bending potential on one three-atom molecule."""
+    import jellyfysh.setting as setting
+    from .. import handlers as hx
+    from ..env import init_setting
+    from jellyfysh.potential.bending_potential import BendingPotential
+    from jellyfysh.event_handler.fixed_separations_event_handler_with_piecewise_constant_bounding_potential import \
+        FixedSeparationsEventHandlerWithPiecewiseConstantBoundingPotential as FS
+    _, scheme, geo = case
+    L = 10.0
+    init_setting((L, L, L), cubic=True, roots=1, per_root=3)
+    phi0, kk = 1.9764, 75.9
+    pot = BendingPotential(equilibrium_angle=phi0, prefactor=kk)
+    handler = FS(potential=pot, lifting=_cls(scheme)(), offset=300.0, max_displacement=0.1, separations=[1, 0, 1, 2])
+    geos = [((0.9, 0.3, 0.1), (-0.4, 0.9, 0.2)), ((1.0, 0.0, 0.2), (-0.2, 1.1, -0.3)), ((0.5, 0.8, 0.3), (0.6, -0.7, 0.4))]
+    l1, l2 = geos[geo]
+    rj = [5.0, 5.0, 5.0]
+    pos = [[rj[d] + l1[d] for d in range(3)], rj, [rj[d] + l2[d] for d in range(3)]]
+    direction = geo % 3
+    vel = [0.0, 0.0, 0.0]
+    vel[direction] = 1.0
+
+    def energy(p):
+        a = [p[0][d] - p[1][d] for d in range(3)]
+        b = [p[2][d] - p[1][d] for d in range(3)]
+        c = sum(x * y for x, y in zip(a, b)) / math.sqrt(sum(x * x for x in a)) / math.sqrt(sum(x * x for x in b))
+        return 0.5 * kk * (math.acos(c) - phi0) ** 2
+    table = {}
+    for i in range(3):
+        p = [list(x) for x in pos]
+        p[i][direction] += 1e-6
+        ep = energy(p)
+        p[i][direction] -= 2e-6
+        table[(0, i)] = (ep - energy(p)) / 2e-6
+    total = sum(v for v in table.values() if v > 0)
+    ratio = scheme.endswith("RatioLifting")
+    fails = []
+    flow = {k: 0.0 for k in table}
+    nexec = 0
+    for i in range(3):
+        qa = table[(0, i)]
+        if qa <= 1e-6 * total:
+            continue
+        in_state = [hx.molecule_branch(0, pos, [None, None, None], i, vel, (0.0, 0.0), L)]
+
+        def pick(u):
+            us = [0.0, 0.5, u] if ratio else [0.0, u]
+            _, out, _ = hx.run_event(handler, in_state, 1e-9, us)
+            mv = hx.moving_leaves(out)
+            return mv[0] if len(mv) == 1 else tuple(mv)
+        try:
+            meas = _measure(pick)
+        except Exception as e:
+            fails.append(("exception", "bending handler %s geometry %d active %d raised %r" % (scheme, geo, i, e)))
+            continue
+        nexec += 129
+        for k, p in meas.items():
+            if k == (0, i) or table.get(k, 0.0) >= 0 and p > 1e-9:
+                fails.append(("selects-nonnegative", "bending handler %s geometry %d active %d: unit %r (derivative %r) "
+                              "selected with measure %.3g" % (scheme, geo, i, k, table.get(k), p)))
+            else:
+                flow[k] += qa * p
+    for k, v in table.items():
+        want = -v if v < 0 else 0.0
+        if abs(flow[k] - want) > 1e-5 * total:
+            fails.append(("handler-flow-balance", "bending handler %s geometry %d: derivatives %r; flow into %r is %.9g, "
+                          "its negative derivative %.9g" % (scheme, geo, table, k, flow[k], want)))
+            break
+    setting.reset()
+    return (("bendhandler", scheme, sum(1 for v in table.values() if v > 0)), nexec), fails
+
+
+DISPATCH = {"int": check_int_table, "float": check_float_table, "ids": check_order, "pairhandler": check_pair_handler,
+            "bendhandler": check_bending_handler}
 
 
 def check_case(case):
@@ -204,6 +396,12 @@ def cases(ctx):
         for s in SCHEMES:
             yield ("float", s, tab)
             yield ("ids", s, tab)
+    for s in SCHEMES:
+        for nl in (2, 3, 4):
+            for geo in (0, 1, 2):
+                yield ("pairhandler", s, nl, geo)
+        for geo in (0, 1, 2):
+            yield ("bendhandler", s, geo)
 
 
 def run(ctx):
@@ -229,13 +427,17 @@ def run(ctx):
                     evals += (sneg * M + 4) if c[1].endswith("RatioLifting") else (qa * M + 2)
         elif c[0] == "float":
             evals += 257 * sum(1 for v in c[2] if v > 0)
+        elif c[0] in ("pairhandler", "bendhandler"):
+            evals += 129 * 2
         else:
             evals += 1
     res.coverage = {
         "evaluations": evals, "tables": n, "distinct_nontrivial": len(regimes),
         "rule": "all integer tables over {-3..3} with zero sum and a positive entry, sizes 2..%d, every order, every "
                 "positive entry active, 3 schemes; draws on the midpoint grid (j+1/2)/(%d q) (exact integer counts) "
-                "plus the end points {0, 1-2^-53}; %d float tables with breakpoints located by bisection. "
+                "plus the end points {0, 1-2^-53}; %d float tables with breakpoints located by bisection; the tables "
+                "the real two-molecule (2-4 atoms) and bending event handlers feed into each scheme (flow measured "
+                "through send_event_time / send_out_state with scripted confirmation and lifting draws). "
                 "evaluations = real insert*/get_active_identifier executions; distinct_nontrivial = distinct "
                 "(scheme, size, has zero entry, several positive, several negative) regimes"
                 % (6 if ctx.thorough else 5, M, len(FLOAT_TABLES)),
